@@ -19,6 +19,13 @@ _BUILTINS = set(dir(builtins)) | {'self', 'cls', 'np', 'math', 'itertools', 'pd'
 
 def _parse(fragment):
     f = fragment.strip()
+    import re as _re
+    mkw = _re.match(r'^(\w+)=(?!=)(.+)$', f)
+    if mkw and ' ' not in mkw.group(1):
+        try:
+            return 'kw', ast.keyword(arg=mkw.group(1), value=ast.parse(mkw.group(2), mode='eval').body)
+        except SyntaxError:
+            pass
     if f.startswith('if ') and not f.rstrip().endswith(':') and ' else ' not in f:
         return 'if', ast.parse(f[3:], mode='eval').body
     if f.startswith('for ') and ' in ' in f and not f.endswith(':') and not f.startswith('for ' + '('):
@@ -98,6 +105,9 @@ class Matcher:
                     if self.unify(pat.target, node.target, fwd, bwd) and self.unify(pat.iter, node.iter, fwd, bwd):
                         out.append(node)
                 continue
+            elif kind == 'kw':
+                if isinstance(node, ast.keyword) and node.arg == pat.arg:
+                    cands.append((pat.value, node.value))
             elif kind == 'expr':
                 if isinstance(node, ast.expr):
                     cands.append((pat, node))
@@ -124,3 +134,51 @@ def has(ctx, fn, *fragments):
 
 def count(ctx, fn, fragment):
     return Matcher(fn, ctx.prog).count(fragment)
+
+
+class FnText:
+    """Drop-in replacement for the normalised text of a function body in shape clauses: `fragment in FnText`
+    is true when the fragment matches a node of the function modulo a consistent renaming of locals (Matcher) -
+    or, for fragments that are not parseable on their own, when it is a substring of the normalised text."""
+
+    def __init__(self, ctx, fn):
+        self.fn = fn
+        self.m = Matcher(fn, ctx.prog)
+        self.text = ' '.join(norm(s) for s in fn.body)
+        ctx.touch(fn)
+
+    def __contains__(self, fragment):
+        import os
+        try:
+            if self.m.has(fragment):
+                return True
+            parse_ok = True
+        except AnalysisError:
+            parse_ok = False
+        sub = fragment in self.text
+        if sub and os.environ.get('SA_DEBUG_FRAGS'):
+            print(f'TEXT-ONLY[{"noparse" if not parse_ok else "nomatch"}] {self.fn.qualname}: {fragment!r}')
+        return sub
+
+    def count(self, fragment):
+        n = self.text.count(fragment)
+        try:
+            n = max(n, self.m.count(fragment))
+        except AnalysisError:
+            pass
+        return n
+
+    def find(self, sub):
+        return self.text.find(sub)
+
+    def index(self, sub):
+        return self.text.index(sub)
+
+    def __getitem__(self, item):
+        return self.text[item]
+
+    def replace(self, a, b):
+        return self.text.replace(a, b)
+
+    def __str__(self):
+        return self.text
